@@ -68,6 +68,9 @@ func ruleGlobals(c *Ctx) {
 				if kind == "read" {
 					return true
 				}
+				if why, ok := vettedGlobalUses[name+"|"+kind]; ok && why != "" {
+					return true
+				}
 				// the one vetted writer: the decoder created once under sync.Once
 				if name == "zDec" && fname == "initSerializer" && kind == "store" {
 					return true
@@ -143,6 +146,36 @@ func classifyGlobalUse(p *GoProg, stack []ast.Node) string {
 					return "store"
 				}
 			}
+			for _, r := range par.Rhs {
+				if r == child && isRefType(p.Info.TypeOf(child.(ast.Expr))) {
+					return "alias (the shared reference is copied into " + p.Str(par.Lhs[0]) + ")"
+				}
+			}
+			return "read"
+		case *ast.ReturnStmt:
+			if isRefType(p.Info.TypeOf(child.(ast.Expr))) {
+				return "alias (the shared reference is returned)"
+			}
+			return "read"
+		case *ast.KeyValueExpr:
+			if par.Value == child && isRefType(p.Info.TypeOf(child.(ast.Expr))) {
+				return "alias (the shared reference is stored in a composite value)"
+			}
+			return "read"
+		case *ast.CompositeLit:
+			if isRefType(p.Info.TypeOf(child.(ast.Expr))) {
+				return "alias (the shared reference is stored in a composite value)"
+			}
+			return "read"
+		case *ast.SendStmt:
+			if par.Value == child && isRefType(p.Info.TypeOf(child.(ast.Expr))) {
+				return "alias (the shared reference is sent on a channel)"
+			}
+			return "read"
+		case *ast.ValueSpec:
+			if isRefType(p.Info.TypeOf(child.(ast.Expr))) {
+				return "alias (the shared reference is copied into a local)"
+			}
 			return "read"
 		case *ast.IncDecStmt:
 			return "store"
@@ -157,11 +190,25 @@ func classifyGlobalUse(p *GoProg, stack []ast.Node) string {
 					return "read"
 				}
 			}
-			// passed by value: arrays/structs are copied, pointers/slices/maps escape
-			t := p.Info.TypeOf(child.(ast.Expr))
-			switch t.Underlying().(type) {
-			case *types.Pointer, *types.Slice, *types.Map, *types.Chan:
-				return "read" // passing the pointer value itself does not write the variable
+			// passed by value: arrays/structs are copied, pointers/slices/maps hand the shared storage to the callee
+			if isRefType(p.Info.TypeOf(child.(ast.Expr))) {
+				name := p.CalleeName(par)
+				switch name {
+				case "append":
+					if len(par.Args) > 0 && par.Args[0] != child {
+						return "read" // appended from: only read
+					}
+					return "alias (append to the shared slice)"
+				case "copy":
+					if len(par.Args) == 2 && par.Args[1] == child {
+						return "read"
+					}
+					return "store"
+				}
+				if tv, ok := p.Info.Types[par.Fun]; ok && tv.IsType() {
+					return "read" // conversion
+				}
+				return "escape (the shared reference is passed to " + name + ")"
 			}
 			return "read"
 		default:
@@ -289,4 +336,21 @@ func rulePools(c *Ctx) {
 		return true
 	})
 	c.Check(okDec, "decBlock:s2-reader", p.Pos(dfd), "Get, Reset(src), read, Reset(nil), Put to the same pool", "the pooled S2 reader in decBlock is not used as Get, Reset(src), ReadFull, Reset(nil), Put(same pool)", "concurrent Deserialize calls")
+}
+
+// isRefType: values of these types share storage when copied.
+func isRefType(t types.Type) bool {
+	if t == nil {
+		return false
+	}
+	switch t.Underlying().(type) {
+	case *types.Pointer, *types.Slice, *types.Map, *types.Chan:
+		return true
+	}
+	return false
+}
+
+// vettedGlobalUses: uses of a package-level reference that hand it to code outside the package, with the reason it is safe.
+var vettedGlobalUses = map[string]string{
+	"wantFeatures|escape (the shared reference is passed to (github.com/klauspost/cpuid/v2.CPUInfo).HasAll)": "cpuid.CPUInfo.HasAll only compares the feature set it is given with the CPU's (hasSetP), it never stores or modifies it",
 }
